@@ -214,6 +214,33 @@ func (p c18) battery(env *Env) (*Case, []*Out) {
 			}
 		}
 	}
+	// a second input whose root type name is already taken when its turn comes (same base name in another
+	// directory; a definition of the first input named like the second's root type): every defect kind in the
+	// second input's definitions and properties must still fail the run
+	str := Obj{{"type", "string"}}
+	for variant := 0; variant < 2; variant++ {
+		i0 := &SFile{Tag: "i0", Dir: "a", Base: "item.json", RootObj: true, Defs: []string{"I0Da"}}
+		i0.Doc = Obj{{"type", "object"}, {"properties", Obj{{"mk_i0", str}}}, {"$defs", Obj{{"I0Da", Obj{{"type", "object"}, {"properties", Obj{{"mk_i0_I0Da", str}}}}}}}}
+		i1 := &SFile{Tag: "i1", Dir: "b", Base: "item.json", RootObj: true, Defs: []string{"I1Da"}}
+		if variant == 1 {
+			i1.Base = "other.json"
+			i0.Doc = withDef(i0.Doc, "OtherJson", Obj{{"type", "object"}, {"properties", Obj{{"taken", str}}}})
+		}
+		i1.Doc = Obj{{"type", "object"}, {"properties", Obj{{"mk_i1", str}, {"i1p1", Obj{{"type", "integer"}}}}}, {"$defs", Obj{{"I1Da", Obj{{"type", "object"}, {"properties", Obj{{"mk_i1_I1Da", str}}}}}}}}
+		w3 := &World{Root: "/w", Cwd: "/w", Files: []*SFile{i0, i1}, Opts: Options{Package: "example.com/m/main", Output: "out/gen.go"}}
+		a3 := []string{"a/item.json", "b/" + i1.Base}
+		add(fmt.Sprintf("root-name-taken variant %d unmodified", variant), w3.Spec("", nil, a3), c18Run{Kind: "valid", Ref: -1, Feature: "root-name-taken"})
+		seen3 := map[string]bool{}
+		for _, st := range collectSites(i1.Doc) {
+			if seen3[st.class] || strings.HasPrefix(st.class, "refbranch") {
+				continue
+			}
+			seen3[st.class] = true
+			for _, k := range defectKinds {
+				buildDefect(w3, a3, i1, st, k, "none", 0, add, "root-name-taken")
+			}
+		}
+	}
 	// every chain shape at depth 16 (a linear generator needs a few thousand ticks for it)
 	for _, shape := range chainShapes {
 		if shape == "anyof-two" {
@@ -1003,7 +1030,8 @@ func buildDefect(w *World, args []string, f *SFile, s site, kind, wrap string, b
 	add("defect "+kind+"@"+s.class, spec, c18Run{Kind: "defect", What: kind, Pos: s.class, MustFail: true, Ref: -1, Feature: feature})
 }
 
-var flagFaultKinds = []string{"output-path-is-directory", "output-parent-is-file", "mapping-no-equals", "mapping-no-equals-output", "mapping-no-equals-root", "unknown-flag", "no-package", "no-args", "missing-file-arg", "flag-missing-value", "same-file-two-packages"}
+var flagFaultKinds = []string{"output-path-is-directory", "output-parent-is-file", "mapping-no-equals", "mapping-no-equals-output", "mapping-no-equals-root", "unknown-flag", "no-package", "no-args", "missing-file-arg", "flag-missing-value", "same-file-two-packages",
+	"mapping-list-element-no-equals", "mapping-output-list-element-no-equals", "mapping-root-trailing-comma", "mapping-leading-comma", "mapping-empty-value-list"}
 
 func genFlagFault(t *rapid.T, w *World, args []string, add addFn, feature string) {
 	kind := rapid.SampledFrom(flagFaultKinds).Draw(t, "flagkind")
@@ -1057,6 +1085,17 @@ func buildFlagFault(w *World, args []string, kind string, add addFn, feature str
 		o.RawTrailing = []string{"--schema-output", "justafile.go"}
 	case "mapping-no-equals-root":
 		o.RawTrailing = []string{"--schema-root-type", "JustAName"}
+	case "mapping-list-element-no-equals":
+		// a comma-separated list whose second element is not URI=PACKAGE (exactly one "=" in the whole value)
+		o.RawTrailing = []string{"--schema-package", "https://example.com/zz=example.com/m/zz,https://example.com/yy"}
+	case "mapping-output-list-element-no-equals":
+		o.RawTrailing = []string{"--schema-output", "https://example.com/zz=zz.go,yy.go"}
+	case "mapping-root-trailing-comma":
+		o.RawTrailing = []string{"--schema-root-type", "https://example.com/zz=Thing,"}
+	case "mapping-leading-comma":
+		o.RawTrailing = []string{"--schema-package", ",https://example.com/zz=example.com/m/zz"}
+	case "mapping-empty-value-list":
+		o.RawTrailing = []string{"--schema-output", "https://example.com/zz=zz.go,,"}
 	case "unknown-flag":
 		o.RawTrailing = []string{"--no-such-flag"}
 	case "no-package":
